@@ -491,6 +491,48 @@ pub fn c03(tier: &str, seed: u64) -> i32 {
     run.finish()
 }
 
+/// the sync-point half of C05's quantifier: one map of every key type in one database, every sequence
+/// of the depth over {put on each map, delete, flush, db.sync_all, db.sync_data}; at every durability call
+/// that returns Ok a copy of the directory must decode (independent decoder) to the model of the covered maps
+pub fn sync_point_pass(ctx: &mut Ctx, prop: &str, depth: u8, secs: f64) {
+    let seed = ctx.seed;
+    let n = ctx.pool.size();
+    let old = std::mem::replace(&mut ctx.pool, Pool::new(n, shim_env(), vec![]));
+    drop(old);
+    let maps = vec![
+        std_map(KtId::Bytes, 8, 2, 9, seed, "s-bytes"),
+        std_map(KtId::Str, 8, 1, 6, seed, "s-string"),
+        std_map(KtId::U64, 8, 1, 8, seed, "s-u64"),
+        std_map(KtId::I64, 8, 1, 8, seed, "s-i64"),
+        std_map(KtId::Vu64, 8, 1, 8, seed, "s-vu64"),
+    ];
+    let mut letters = Vec::new();
+    for mi in 0..5u8 {
+        letters.push(Letter { kind: L_PUT, map: mi, handle: H_FIRST, key: 0, val: 0 });
+    }
+    letters.push(Letter { kind: L_PUT, map: 0, handle: H_FIRST, key: 1, val: 1 });
+    letters.push(Letter { kind: L_DEL, map: 0, handle: H_FIRST, key: 0, val: 0 });
+    letters.push(Letter { kind: L_FLUSH, map: 0, handle: H_FIRST, key: 0, val: 0 });
+    letters.push(Letter { kind: L_DB_SYNC_ALL, map: 0, handle: 0, key: 0, val: 0 });
+    letters.push(Letter { kind: L_DB_SYNC_DATA, map: 0, handle: 0, key: 0, val: 0 });
+    let cfg = BCfg { prop: prop.to_string(), maps, val_lens: vec![6, 200], letters, depth, flags: 0, seed, reopen: vec![], other_params: Params::defaults() };
+    let t0 = ctx.run.elapsed();
+    let st = explore_with(&cfg, ctx, JOB_C03_RUN, secs);
+    eprintln!("[{prop}] sync points: sequences={} calls={} complete={} {:.1}s", st.sequences, st.calls, st.complete, ctx.run.elapsed() - t0);
+    ctx.runs.push(J::obj(vec![
+        ("label", J::s("sync points: one map of every key type in one database; every sequence over put on each map / delete / flush / db.sync_all / db.sync_data; at every durability call that returns Ok a copy of the directory is decoded")),
+        ("depth", J::Int(depth as i64)),
+        ("sequences", J::Int(st.sequences as i64)),
+        ("calls", J::Int(st.calls as i64)),
+        ("complete", J::Bool(st.complete)),
+    ]));
+    ctx.states += st.sequences;
+    ctx.transitions += st.calls;
+    let n = ctx.pool.size();
+    let old = std::mem::replace(&mut ctx.pool, Pool::new(n, vec![], vec![]));
+    drop(old);
+}
+
 /// engine B's exploration with another job kind (same payload prefix + extras)
 fn explore_with(cfg: &BCfg, ctx: &mut Ctx, job_kind: u8, max_secs: f64) -> BStats {
     let pool = &mut ctx.pool;
@@ -1220,7 +1262,7 @@ fn c18_run(bw: &mut BWorker, payload: &[u8]) -> Vec<u8> {
     out.enc()
 }
 
-pub const SPLICE_KINDS: [&str; 4] = ["get(k0)", "get(k1)", "len + is_empty", "full iteration"];
+pub const SPLICE_KINDS: [&str; 6] = ["get(k0)", "get(k1)", "len + is_empty", "full iteration", "the seven statistics calls", "includes_key + get_string + bulk_get + bulk_get_string"];
 
 /// one history, executed plain and then once for every non-empty set of positions x every kind of
 /// read-only call spliced in after exactly those positions; all executions must leave the same files
@@ -1267,9 +1309,11 @@ fn c18_masks(bw: &mut BWorker, payload: &[u8], io: &mut WorkerIo) -> Vec<u8> {
                                 let _ = guard(|| h.len());
                                 let _ = guard(|| h.is_empty());
                             }
-                            _ => {
+                            3 => {
                                 let _ = guard_plain(|| h.items());
                             }
+                            4 => h.stats_all(),
+                            _ => h.lookups_all(&keys),
                         }
                     }
                     None
